@@ -546,6 +546,9 @@ def lookup_bad(self, name):
 def lookup_ok(self, name):
     query = f"descendant::text:bookmark[@text:name={xpath_string_literal(name)}]"
     return self.get_element(query)
+def lookup_tpl(self, name, position):
+    query = make_xpath_query("descendant::text:bookmark", text_name=name)
+    return self.get_element(f"({query})[%d]" % (position + 1))
 def lookup_nfc(self, name):
     key = normalize("NFC", name)
     return self.get_element(f"descendant::text:bookmark[@text:name={xpath_string_literal(key)}]")
@@ -559,6 +562,15 @@ def _lossy_call(c: ast.Call) -> bool:
     return isinstance(c.func, ast.Name) and c.func.id in LOSSY_FUNCS and bool(c.args)
 
 
+def _runtime_text(e) -> bool:
+    """a string expression that is not a literal: an f-string with fields, a name, a concatenation containing one of these"""
+    if isinstance(e, ast.JoinedStr):
+        return any(isinstance(v, ast.FormattedValue) for v in e.values)
+    if isinstance(e, ast.BinOp) and isinstance(e.op, ast.Add):
+        return _runtime_text(e.left) or _runtime_text(e.right)
+    return isinstance(e, (ast.Name, ast.Attribute, ast.Call, ast.Subscript)) and not (isinstance(e, ast.Call) and call_name(e) in ("int", "len"))
+
+
 def _rewrites(node, sink_exprs, lf, q):
     """Lossy string transformations among the expressions a sink argument is built from (backward def-use closure, helper arguments included)."""
     seen, work, out = set(), list(sink_exprs), []
@@ -569,6 +581,11 @@ def _rewrites(node, sink_exprs, lf, q):
         seen.add(id(e))
         names = set(str_sources(e, q))
         for c in ast.walk(e):
+            # run-time text used as a %-template or str.format template: '%%' collapses, '%s'/'{}' inside an identifier raise or swallow arguments
+            if isinstance(c, ast.BinOp) and isinstance(c.op, ast.Mod) and _runtime_text(c.left):
+                out.append(c)
+            if isinstance(c, ast.Call) and isinstance(c.func, ast.Attribute) and c.func.attr in ("format", "format_map") and _runtime_text(c.func.value):
+                out.append(c)
             if isinstance(c, ast.Call):
                 if _lossy_call(c):
                     out.append(c)
@@ -607,9 +624,11 @@ def r14d(ctx):
         bad = _rewrites(f.node, exprs, flow.lf(f), q)
         ctx.instance("R14d", f"{f.file}:{f.ident}", f"{len(exprs)} sink argument(s): built without lossy transformation", ok=not bad, nontrivial=bool(bad), line=f.node.lineno)
         for c in bad[:2]:
+            how = "%-formatting with run-time text as the template" if isinstance(c, ast.BinOp) else f"`{norm(c.func, 30)}()`"
             ctx.report("R14d", f, c, f"{norm(c, 60)} on the way to an XPath sink",
-                       f"{f.ident} rewrites a string that becomes (part of) an XPath query with `.{c.func.attr}()`: identifiers that differ only in what the "
-                       f"transformation erases are looked up as one, while the stored attribute keeps the original spelling")
+                       f"{f.ident} rewrites a string that becomes (part of) an XPath query with {how}: identifiers that differ only in what the "
+                       f"transformation erases (or that contain its control characters: '%', '{{', '}}') are looked up as another name or make the lookup fail, while the stored "
+                       f"attribute keeps the original spelling")
     # the query builders themselves: whatever they compute becomes query text, so nothing in them rewrites a non-constant string
     # (the quoting helper is excluded: its own split/join is the object of R14a/R14c)
     quoting = {g.name for g in flow.funcs if "literal" in g.name}
@@ -631,7 +650,7 @@ def r14d(ctx):
             node = fn
         cs = [n for n in ast.walk(fn) if isinstance(n, ast.Call) and call_name(n) in BASE_SINKS]
         got[fn.name] = len(_rewrites(fn, [c.args[0] for c in cs], LocalFlow(_F, q), q))
-    if got != {"compile_bad": 1, "lookup_bad": 1, "lookup_ok": 0, "lookup_nfc": 1}:
+    if got != {"compile_bad": 1, "lookup_bad": 1, "lookup_ok": 0, "lookup_nfc": 1, "lookup_tpl": 1}:
         raise AnalysisError(f"R14d fixture: rewrite detector broken: {got}")
 
 
@@ -785,6 +804,12 @@ SEEDS = [
     Seed("make_xpath_query NFC-normalises the value it quotes", "fault", _XQ,
          'from .style_constants import FAMILY_ODF_STD\n', 'from unicodedata import normalize\n\nfrom .style_constants import FAMILY_ODF_STD\n', "R14d",
          edits=[(_XQ, '            query.append(f"[@{qname}={xpath_string_literal(value)}]")', '            value = normalize("NFC", str(value))\n            query.append(f"[@{qname}={xpath_string_literal(value)}]")')]),
+    Seed("_filtered_element formats the position into the finished query with %", "fault", _EL,
+         "        results = self._filtered_elements(query_string, **kwargs)\n        try:\n            return results[position]\n        except IndexError:\n            return None",
+         "        if position >= 0:\n            query = make_xpath_query(query_string, **kwargs)\n            return self.get_element(f\"({query})[%d]\" % (position + 1))\n        results = self._filtered_elements(query_string, **kwargs)\n        try:\n            return results[position]\n        except IndexError:\n            return None", "R14d"),
+    Seed("_filtered_element puts the position into the finished query with an f-string", "neutral", _EL,
+         "        results = self._filtered_elements(query_string, **kwargs)\n        try:\n            return results[position]\n        except IndexError:\n            return None",
+         "        if position >= 0 and not kwargs.get(\"content\"):\n            query = make_xpath_query(query_string, **kwargs)\n            found = self.get_element(f\"({query})[{position + 1}]\")\n            if found is not None or True:\n                pass\n        results = self._filtered_elements(query_string, **kwargs)\n        try:\n            return results[position]\n        except IndexError:\n            return None"),
     Seed("make_xpath_query trims the keyword it files", "fault", _XQ, 'attributes["text:name"] = text_name', 'attributes["text:name"] = text_name.strip()', "R14d"),
     Seed("make_xpath_query converts the value with str() first", "neutral", _XQ,
          '            query.append(f"[@{qname}={xpath_string_literal(value)}]")', '            shown = str(value)\n            query.append(f"[@{qname}={xpath_string_literal(shown)}]")'),
